@@ -42,7 +42,7 @@ ASSUMPTIONS = [
 
 
 def budget(tier):
-    return int(os.environ.get("VERIF_BUDGET", 0)) or {"quick": 600, "thorough": 20000}[tier]
+    return int(os.environ.get("VERIF_BUDGET", 0)) or {"quick": 600, "thorough": 8000}[tier]
 
 
 # ---------------------------------------------------------------- generation
